@@ -198,6 +198,9 @@ registry! {
     (55, "HyperDualVec<Dual64,2,2>", HyperDualVec<D64, f64, Const<2>, Const<2>>, Nested, 0, false, 3, true, true, false),
     (56, "DualVec<Dual64,Dyn>", DualVec<D64, f64, Dyn>, Nested, 1, false, 2, true, false, false),
     (57, "HyperHyperDual<Dual64>", HyperHyperDual<D64, f64>, Nested, 0, false, 4, false, true, false),
+    (58, "DualVec<DualSVec64<2>,3>", DualVec<DualSVec64<2>, f64, Const<3>>, Nested, 0, false, 2, true, true, false),
+    (59, "DualVec<DualDVec64,Dyn>", DualVec<DualDVec64, f64, Dyn>, Nested, 1, false, 2, true, false, false),
+    (60, "Dual2Vec<DualSVec64<2>,2>", Dual2Vec<DualSVec64<2>, f64, Const<2>>, Nested, 0, false, 3, true, true, false),
 }
 
 pub fn n_types() -> usize {
